@@ -541,7 +541,8 @@ static void append_store(void *addr, Loc &L, uint64_t val, int mo, bool rmw, con
 	s.has_rel = false; s.rel.clear();
 	const StoreRec &last = L.hist.back();
 	if (rmw && prev_for_rmw && prev_for_rmw->has_rel) { s.has_rel = true; s.rel = prev_for_rmw->rel; }
-	else if (!rmw && last.task == me && last.has_rel) { s.has_rel = true; s.rel = last.rel; } // C++11 same-thread release sequence
+	// (C++20: only read-modify-writes continue a release sequence; a later plain store of the releasing thread no longer
+	//  does — [atomics.order], P0982R1. The code is compiled as C++20, so that rule is the one applied.)
 	if (is_rel(mo)) { s.has_rel = true; s.rel.join(t.clk); }
 	else if (t.has_fence_rel) { s.has_rel = true; s.rel.join(t.fence_rel); }
 	L.hist.push_back(s);
